@@ -5,6 +5,7 @@ package interp
 
 import (
 	"fmt"
+	"os"
 	"sort"
 	"strings"
 
@@ -229,8 +230,10 @@ func (p *pathCtx) refine(t *sym.Term) {
 
 // domDecide tries to decide the feasibility of cond and of its negation from variable
 // domains alone. ok=false: undecided, ask the solver.
+var noDomDecide = os.Getenv("GOSYM_NO_DOM") != ""
+
 func (p *pathCtx) domDecide(cond *sym.Term) (t, f, ok bool) {
-	if p.dom == nil {
+	if p.dom == nil || noDomDecide {
 		return
 	}
 	neg := false
